@@ -31,6 +31,11 @@ func vCheckAgreement(a, b *Association, ilA, ilB, zA, zB bool) {
 	vassert(a.peerVerificationTag == b.myVerificationTag && b.peerVerificationTag == a.myVerificationTag, "verification tags agree")
 	vassert(a.maxPayloadSize == b.maxPayloadSize, "both sides fragment to the same payload size")
 	vassert(a.RWND() == b.maxReceiveBufferSize && b.RWND() == a.maxReceiveBufferSize, "each side starts with the receive window the peer advertised")
+	ma, okA := a.Metadata()
+	mb, okB := b.Metadata()
+	vassert(okA && okB, "metadata is available once established")
+	vassert(ma.ZeroChecksumSendingEnabled == a.sendZeroChecksum && ma.ZeroChecksumReceivingEnabled == a.recvZeroChecksum && mb.ZeroChecksumSendingEnabled == b.sendZeroChecksum && mb.ZeroChecksumReceivingEnabled == b.recvZeroChecksum, "the reported agreement is the negotiated one (sending / receiving not crossed)")
+	vassert(ma.MessageInterleavingEnabled == a.useInterleaving && mb.MessageInterleavingEnabled == b.useInterleaving, "interleaving is reported as negotiated")
 	vassert(!a.t1Init.isRunning() && !a.t1Cookie.isRunning() && !b.t1Init.isRunning() && !b.t1Cookie.isRunning(), "no handshake timer is left running on an established association")
 }
 
@@ -39,7 +44,7 @@ func vCheckAgreement(a, b *Association, ilA, ilB, zA, zB bool) {
 func vh_C04_L1_client_server() {
 	ilA, ilB, zA, zB := vPick(2) == 1, vPick(2) == 1, vPick(2) == 1, vPick(2) == 1
 	a := vHandshakeEndpoint(ilA, zA)
-	vHandshakeRecvBuf = 8192 // the server advertises a smaller window than the client
+	vHandshakeRecvBuf = []uint32{8192, 1500}[vPick(2)] // the server advertises a smaller window than the client, down to the RFC minimum
 	b := vHandshakeEndpoint(ilB, zB)
 	a.initClient()
 	b.initServer()
@@ -332,5 +337,52 @@ func vh_C04_L2_stale_cookie_echo_keeps_retries() {
 	}
 	vassert(inits >= 1, "INIT is retransmitted after the stale COOKIE ECHO")
 	vassert(len(a.handshakeCompletedCh) == 1, "after the bounded retries the connect call is told the handshake failed")
+	vcover("end")
+}
+
+// C04.L2c: an INIT is answered in every state of the handshake in which the peer may still
+// need the answer. A client that has already echoed a cookie (COOKIE-ECHOED) receives an
+// INIT (simultaneous open, or the peer restarted after its INIT ACK): it answers with an
+// INIT ACK carrying a cookie, and stays in COOKIE-ECHOED with T1-cookie running.
+func vh_C04_L2_init_answered_in_cookie_echoed() {
+	a := vHandshakeEndpoint(vPick(2) == 1, false)
+	a.initClient()
+	_ = vWriterWake(a)
+	ack := &chunkInitAck{}
+	ack.initiateTag, ack.initialTSN = 1+nondetU32()%0xfffffffe, nondetU32()
+	ack.numOutboundStreams, ack.numInboundStreams = 10, 10
+	ack.advertisedReceiverWindowCredit = 1 << 16
+	setSupportedExtensions(&ack.chunkInitCommon, false)
+	ack.params = append(ack.params, &paramStateCookie{cookie: nondetBytes(4)})
+	raw, err := (&packet{sourcePort: 5000, destinationPort: 5000, verificationTag: a.myVerificationTag, chunks: []chunk{ack}}).marshal(true)
+	vassert(err == nil, "INIT ACK marshals")
+	vInbound(a, raw)
+	_ = vWriterWake(a)
+	vassert(a.getState() == cookieEchoed && a.t1Cookie.isRunning(), "cookie echoed, T1-cookie running")
+	init := &chunkInit{}
+	init.initiateTag, init.initialTSN = 1+nondetU32()%0xfffffffe, nondetU32()
+	init.numOutboundStreams, init.numInboundStreams = 10, 10
+	init.advertisedReceiverWindowCredit = 1 << 16
+	setSupportedExtensions(&init.chunkInitCommon, false)
+	rawInit, ierr := (&packet{sourcePort: 5000, destinationPort: 5000, chunks: []chunk{init}}).marshal(true)
+	vassert(ierr == nil, "INIT marshals")
+	vInbound(a, rawInit)
+	answered := false
+	for _, out := range vWriterWake(a) {
+		if p := vDecode(out); p != nil {
+			for _, c := range p.chunks {
+				if ia, ok := c.(*chunkInitAck); ok {
+					for _, prm := range ia.params {
+						if _, ok := prm.(*paramStateCookie); ok {
+							answered = true
+						}
+					}
+					vassert(p.verificationTag == init.initiateTag, "the INIT ACK carries the tag of the INIT it answers")
+				}
+			}
+		}
+	}
+	vassert(answered, "an INIT received in COOKIE-ECHOED is answered with an INIT ACK carrying a cookie")
+	vassert(a.getState() == cookieEchoed, "the state does not change")
 	vcover("end")
 }
